@@ -30,9 +30,8 @@ CFG = {
                     "the limits clause is read as what the pool-wide enforcement establishes (after every reset / promoteExecutables), not as an "
                     "at-all-times invariant: SetGasPrice and pool-full discards re-queue followers without running the enforcement "
                     "(theorem limits_transient_witness)",
-                    "full-strength invariant theorems are about the machine with the proposed patch of demoteUnexecutables; for the code as "
-                    "written the first clause is false (reset_gap_witness, known finding) and the theorems hold on histories without a "
-                    "re-injection hole (…_aswritten_partial)"],
+                    "the model carries both variants of the two defects this check found and /repo fixed (removeTx before f30bc16, "
+                    "demoteUnexecutables before c2af732) only as documentation: pre_c2af732_* and prefix_removeTx_witness theorems"],
     "trusted_base": ["Model.TxPool mirrors core/tx_list.go and core/tx_pool.go function by function; ManagedState is the map of virtual nonces; "
                      "eviction order (price heap ties, spammer queue, heartbeats, Go map iteration) is an oracle quantified universally"],
 }
@@ -40,10 +39,10 @@ META = {
     "technique": "Lean 4 proof (inductive invariant of the pool state machine under every eviction oracle, list lemmas, limits, replacement rule) "
                  "tied to core/tx_pool.go and core/tx_list.go by trace validation of the real pool",
     "text": "Theorems inv_init / inv_step / inv_reachable (pending lists are gap-free affordable runs from the chain nonce, one transaction per "
-            "sender and nonce) hold for all operation sequences and all eviction choices in the Lean model of the pool with the proposed "
-            "demotion patch; limits_after_reset, replacement_needs_bump, all_ok_step, reorg_reinjects_partial cover limits, price bump and reorg "
-            "re-injection. For the code as written reset_gap_witness (a hole after re-injection, reproduced on the real pool, recorded "
-            "as known finding) and the …_aswritten_partial theorems. Every run replays >10k real pool transitions through the model and "
+            "sender and nonce) hold for all operation sequences and all eviction choices in the Lean model of the pool as written at "
+            "HEAD; limits_after_reset, replacement_needs_bump, all_ok_step, reorg_reinjects_partial cover limits, price bump and reorg "
+            "re-injection. The two defects found by this check and since fixed in /repo (f30bc16, c2af732) stay documented as decided "
+            "witnesses on the pre-fix model variants (prefix_removeTx_witness, pre_c2af732_reset_gap_witness). Every run replays >10k real pool transitions through the model and "
             "evaluates the clauses on every observed state.",
     "note": GEN + " The reorg re-injection clause is proved end to end for local senders (reorg_reinjects_partial) and at the bookkeeping "
                   "level for all (all = pending ∪ queue for every operation; the pre-fix defect as a decided witness); for non-local "
